@@ -353,8 +353,19 @@ func (p *c27kitPlan) Builder() (*TransactionBuilder, error) {
 			return nil, fmt.Errorf("input %d: %v", i, err)
 		}
 	}
-	for _, o := range p.Outputs {
+	// Every second plan asks the builder for signature hashes while the
+	// transaction is still being put together (after the inputs, and again
+	// after the first output): the hashes that count are the ones computed
+	// on the finished transaction, whatever was computed before.
+	early := (len(p.Inputs)+len(p.Outputs))%2 == 1
+	if early {
+		_, _ = b.ComputeSignatureHashes()
+	}
+	for i, o := range p.Outputs {
 		b.AddOutput(o)
+		if early && i == 0 && len(p.Outputs) > 1 {
+			_, _ = b.ComputeSignatureHashes()
+		}
 	}
 	return b, nil
 }
